@@ -485,6 +485,16 @@ func init() {
 				}
 			}
 		}
+		// HTTP/2 response bodies received under a small stream window that the client reopens with WINDOW_UPDATE frames, with
+		// SETTINGS frames changing INITIAL_WINDOW_SIZE, or both in turn; the stream half-closed (GET) or still open (POST)
+		for _, mode := range []string{"wu", "settings", "mixed"} {
+			for _, post := range []int{0, 1} {
+				for _, sz := range [][3]int{{200000, 16384, 65536}, {70000, 1, 30000}, {5000, 0, 1000}} {
+					c.tag("h2-response-under-reopened-window:" + mode)
+					c.op(fmt.Sprintf("passwin body=%d w0=%d inc=%d mode=%s post=%d sum=%s", sz[0], sz[1], sz[2], mode, post, sum(passBody(sz[0], sz[0]))))
+				}
+			}
+		}
 		for i := 0; i < c.count; i++ {
 			r := c.rng.fork()
 			proto := []string{"h1", "h2"}[r.intn(2)]
